@@ -39,8 +39,8 @@ type profile struct {
 	waitAllPct  int
 	badAddrPct  int
 	busyPortPct int
-	tlsPct      int // the listener is TLS (mode 1 or 2)
-	startTLSPct int // a client upgrades with StartTLS (plain listener only)
+	tlsPct      int  // the listener is TLS (mode 1 or 2)
+	startTLSPct int  // a client upgrades with StartTLS (plain listener only)
 	misbehave   bool // C18: clients that do not satisfy the TLS configuration
 }
 
@@ -69,6 +69,7 @@ func profileFor(prop, tier string) profile {
 		base.richResp = true
 		base.endings = []string{"", "", "", "close"}
 		base.tlsPct, base.startTLSPct = 10, 15
+		base.stopPct = 15
 	case "C06":
 		base.holdAll, base.maxConns, base.maxReqs, base.minReqs = true, 4, pick(40, 256), 1
 		base.endings = []string{""}
@@ -77,7 +78,8 @@ func profileFor(prop, tier string) profile {
 		base.maxConns, base.maxReqs = 4, 6
 		base.faults, base.faultBudget = []string{"reset", "accept", "pause"}, 3
 		base.endings = []string{"", "", "close", "reset", "midframe", "garbage"}
-		base.lateClient, base.panicPct, base.windowPct = true, 3, 20
+		base.lateClient, base.panicPct, base.windowPct = true, 6, 20
+		base.unbindPct, base.startTLSPct = 25, 15
 		base.onClose = []int{0, 1}
 	case "C08":
 		base.maxConns, base.maxReqs = pick(5, 8), 5
@@ -101,8 +103,9 @@ func profileFor(prop, tier string) profile {
 	case "C11":
 		base.maxConns, base.maxReqs = pick(4, 8), pick(6, 24)
 		base.stopPct, base.passiveEnd = 100, true
-		base.endings = []string{"", "", "", "midframe-open", "close"}
-		base.windowPct, base.pausePct, base.stallPct = 30, 30, 20
+		base.endings = []string{"", "", "", "midframe-open", "close", "unbind", "halfclose"}
+		base.windowPct, base.pausePct, base.stallPct = 35, 35, 25
+		base.extraFrames, base.bigPct = 2, 10
 		base.onClose = []int{0, 1}
 		base.tlsPct, base.startTLSPct = 15, 10
 		base.misbehave = true
@@ -111,11 +114,14 @@ func profileFor(prop, tier string) profile {
 		base.stopPct, base.stop2Pct = 80, 20
 		base.onClose = []int{1, 2, 2}
 		base.stallPct, base.longPct = 40, 10
-		base.endings = []string{"", "", "close", "midframe-open"}
+		base.endings = []string{"", "", "close", "midframe-open", "reset"}
+		base.tlsPct, base.startTLSPct = 15, 15
+		base.faults, base.faultBudget = []string{"reset"}, 2
 	case "C13":
 		base.maxConns, base.maxReqs = pick(4, 6), pick(6, 12)
 		base.startTLSPct = 85
 		base.endings = []string{"", "", "close"}
+		base.faults, base.faultBudget, base.stopPct = []string{"clock"}, 2, 15
 		base.stallPct, base.extraFrames, base.richResp, base.rich = 30, 2, true, true
 	case "C18":
 		base.maxConns, base.maxReqs = pick(5, 8), 4
@@ -124,7 +130,7 @@ func profileFor(prop, tier string) profile {
 	case "C17":
 		base.maxConns, base.maxReqs = 2, 2
 		base.readyPoll, base.badAddrPct, base.busyPortPct = true, 25, 25
-		base.stopPct = 30
+		base.stopPct, base.tlsPct = 30, 30
 	case "C15":
 		base.maxConns, base.maxReqs = 4, 8
 		base.endings = []string{"", "close", "reset", "unbind", "halfclose", "midframe"}
@@ -239,6 +245,16 @@ func DrawCore(prop, tier string, ch *Chooser, lean bool, s *Sim) *Core {
 		if p.unbindPct > 0 && ch.Choose(2) == 1 {
 			cfg.Routes = cfg.Routes[:len(cfg.Routes)-1] // no unbind route
 		}
+		if prop == "C10" && ch.Choose(3) == 2 {
+			// no default route either
+			var rs []RouteSpec
+			for _, r := range cfg.Routes {
+				if r.Kind != "default" {
+					rs = append(rs, r)
+				}
+			}
+			cfg.Routes = rs
+		}
 	}
 	for _, r := range cfg.Routes {
 		if r.Kind == "default" {
@@ -268,7 +284,8 @@ func DrawCore(prop, tier string, ch *Chooser, lean bool, s *Sim) *Core {
 		}
 	}
 	if ch.Chance(p.badAddrPct) {
-		cfg.Addr = []string{"127.0.0.1", "127.0.0.1:", "[::1", "[::1]", "[zz::1]:389", ":::389", "1.2.3:389:", "[::1]:", ""}[ch.Choose(9)]
+		cfg.Addr = []string{"127.0.0.1", "127.0.0.1:", "[::1", "[::1]", "[zz::1]:389", ":::389", "1.2.3:389:", "[::1]:", "", ":", "[::1]:x:", "::"}[ch.Choose(12)]
+		cfg.Malformed = true
 	} else if p.readyPoll {
 		cfg.Addr = []string{"127.0.0.1:389", ":389", "[::1]:389", "::1:389", "0.0.0.0:389"}[ch.Choose(5)]
 	}
@@ -279,6 +296,9 @@ func DrawCore(prop, tier string, ch *Chooser, lean bool, s *Sim) *Core {
 	}
 	if ch.Chance(p.tlsPct) {
 		cfg.TLSMode = 1 + ch.Choose(2)
+	}
+	if !cfg.Malformed && ch.Chance(p.busyPortPct) {
+		cfg.BusyPort = true
 	}
 	nConns := ch.Int(1, p.maxConns)
 	if prop == "C11" || prop == "C12" {
@@ -373,7 +393,7 @@ func DrawCore(prop, tier string, ch *Chooser, lean bool, s *Sim) *Core {
 			q.Inline = rec.Op == "unbind" || (rec.Op == "extended" && rec.ExtName == oidStartTLS)
 			c.drawScript(q, p, ch, g)
 			if j == startTLSAt {
-				q.Script.Panic = false
+				q.Script.Panic = q.Script.Panic && prop == "C07" // inline handler panic (C07 only)
 				q.Script.Resps = []*RespSpec{{Ctor: "extended", HasCode: true, Code: 0}}
 				q.Script.StartTLS = true
 				q.Script.StallAfter = ch.Choose(4)
@@ -466,6 +486,9 @@ func plainRequest(g *Gen) *ReqRec {
 		r.Op, r.DN = "delete", "cn=old"
 	default:
 		r.Op, r.ExtName = "extended", "1.3.6.1.4.1.4203.1.11.3"
+		if g.Ch.Choose(2) == 1 {
+			r.ExtName = "1.2.3.4.5" // no route of the full table: served by the default route
+		}
 	}
 	return r
 }
@@ -480,6 +503,9 @@ func (c *Core) drawScript(q *Req, p profile, ch *Chooser, g *Gen) {
 		if ch.Chance(p.longPct) {
 			sc.Stall = 2
 		}
+	}
+	if op == "unbind" && ch.Chance(p.panicPct*3) {
+		sc.Panic = true // the unbind handler runs on the connection goroutine
 	}
 	if !q.Rec.Supported() || op == "unbind" {
 		return
